@@ -6,7 +6,7 @@
    signature term under honest material occurring in l is one of those (Dolev-Yao).  The key tag is
    a free field of every key, so each statement holds for every tag assignment (collisions
    included); [nrank] (Go's string order) and the record order are universally quantified. *)
-From Sdns Require Import Common.Base Common.GoList Gen.C01 C01.Model C01.Proofs_sig C01.Proofs_chain C01.Proofs_f9 C01.Proofs_top C01.Proofs_deleg C01.Proofs_pad C01.Proofs_chase C01.Proofs_zone C01.Proofs_descent C01.Proofs_descent_min C01.Proofs_filter.
+From Sdns Require Import Common.Base Common.GoList Gen.C01 C01.Model C01.Proofs_sig C01.Proofs_chain C01.Proofs_f9 C01.Proofs_top C01.Proofs_deleg C01.Proofs_pad C01.Proofs_chase C01.Proofs_zone C01.Proofs_descent C01.Proofs_descent_min C01.Proofs_filter C01.Proofs_rrsigq.
 Open Scope N_scope.
 
 (* VerifyDS: success means a supported DS of the parent's set is the digest of a key of the child's
@@ -251,6 +251,17 @@ Theorem insecure_child_needs_proof : forall E resp q pds zone,
       exists dss, find_ds E (Some s) q eds false = Ok dss /\ dss <> [] /\ verify_dnssec E s resp dss = (false, None))).
 Proof. exact insecure_child_needs_proof. Qed.
 Print Assumptions insecure_child_needs_proof.
+
+(* finding rrsig-question-insecure-delegation (repaired): what verifyDNSSEC says about a response with an EMPTY answer section —
+   every referral, every denial — does not depend on the type of the question being resolved (the signer's own DNSKEY question
+   apart): a referral hands down the same DS set and a denial gets the same verdict whether the client asked for A, RRSIG,
+   NSEC, ANY …; the `(false, None)` of insecure_child_needs_proof's last disjunct is no longer reachable through the question
+   type.  Was `referral_verdict_independent_of_qtype_refuted`. *)
+Theorem referral_verdict_independent_of_qtype : forall E s resp dss t,
+  m_ans resp = [] -> m_qtype resp <> T_DNSKEY -> t <> T_DNSKEY ->
+  verify_dnssec E s (requery resp t) dss = verify_dnssec E s resp dss.
+Proof. exact referral_verdict_independent_of_qtype_lemma. Qed.
+Print Assumptions referral_verdict_independent_of_qtype.
 
 (* the DS set a signed referral hands down is authentic for the child (the descent's invariant, one hop) *)
 Theorem referral_ds_authentic : forall (honest : name -> N -> Prop) (zsigned : name -> signed -> Prop),
